@@ -457,3 +457,250 @@ Print Assumptions C08_upper_solve_binary64.
    collapse to residual = 0: RoundSolve.lower_solve_id_exact / upper_solve_id_exact), by the inexact rounding
    v -> v (1 + 1/8) (std_model_scale; RoundSolve.lower_2x2_scale / upper_2x2_scale evaluate 2x2 systems whose computed
    solution has a non-zero residual below the bound) and by binary64 (std_model_binary64). *)
+
+(* ===================================================================================== backward error of the
+   FACTORISATIONS in the rounding model (C08/RoundFactor.v, RoundFactor64.v), every order n, every input on which the
+   ROUNDED run succeeds (return code 0).  Rnd8_ops rnd tiny: every sub/mul/div/sqrt is the exact operation followed by
+   rnd; the pivot tests and the pivot search compare the rounded values exactly.  std_model rnd eps eta:
+   |rnd x - x| <= eps |x| + eta.  gamma eps k = k eps / (1 - k eps).  Overflow is outside the model.
+   In each statement the run is total (stays inside its buffers, returns 0 or 1) and the bound holds when it returns 0. *)
+From LibaV Require Import Common.RoundMono C08.RoundFactor C08.RoundFactor64.
+
+(* Cholesky, cell by cell (Higham Thm 10.3 with the constants of this loop order): on the triangle the code reads,
+   |a_rc - sum_{i<=c} l_ri l_ci| <= gamma_{c+1} sum_{i<=c} |l_ri||l_ci| + (3(c+1) + |l_cc|)(1 + gamma_{c+1}) eta  (c < r),
+   |a_rr - sum_{i<=r} l_ri^2|    <= gamma_{r+2} sum_{i<=r} l_ri^2 + (3(r+2) + 2|l_rr| + eta)(1 + gamma_{r+2}) eta,
+   and the computed diagonal is positive (eta^2 < (1-eps)^2 tiny keeps the rounded root of a pivot >= tiny off zero) *)
+Theorem C08_llt_backward_error : forall rnd eps eta tiny, std_model rnd eps eta -> 0 < tiny ->
+  forall n (A : list R),
+  length A = (n * n)%nat -> INR (n + 1) * eps < 1 -> eta * eta < (1 - eps) * (1 - eps) * tiny ->
+  exists rc Lh, llt (Rnd8_ops rnd tiny) n A = Some (rc, Lh) /\ length Lh = (n * n)%nat /\ (rc = 0%nat \/ rc = 1%nat) /\
+    (rc = 0%nat ->
+       (forall c, (c < n)%nat -> 0 < mg n Lh c c) /\
+       (forall r c, (c < r)%nat -> (r < n)%nat ->
+          Rabs (mg n A r c - rsum (fun i => mg n Lh r i * mg n Lh c i) (S c))
+          <= gamma eps (S c) * rsum (fun i => Rabs (mg n Lh r i) * Rabs (mg n Lh c i)) (S c)
+             + (3 * INR (S c) + Rabs (mg n Lh c c)) * (1 + gamma eps (S c)) * eta) /\
+       (forall r, (r < n)%nat ->
+          Rabs (mg n A r r - rsum (fun i => mg n Lh r i * mg n Lh r i) (S r))
+          <= gamma eps (r + 2) * rsum (fun i => Rabs (mg n Lh r i) * Rabs (mg n Lh r i)) (S r)
+             + (3 * INR (r + 2) + (2 * Rabs (mg n Lh r r) + eta)) * (1 + gamma eps (r + 2)) * eta)).
+Proof. exact C08.RoundFactor.llt_backward_error. Qed.
+Print Assumptions C08_llt_backward_error.
+
+(* the classical shape: |A - L^ L^^T|_rc <= gamma_{n+1} (|L^||L^|^T)_rc + O(n) eta for c <= r *)
+Theorem C08_llt_backward_error_uniform : forall rnd eps eta tiny, std_model rnd eps eta -> 0 < tiny ->
+  forall n (A : list R),
+  length A = (n * n)%nat -> INR (n + 1) * eps < 1 -> eta * eta < (1 - eps) * (1 - eps) * tiny ->
+  exists rc Lh, llt (Rnd8_ops rnd tiny) n A = Some (rc, Lh) /\ length Lh = (n * n)%nat /\ (rc = 0%nat \/ rc = 1%nat) /\
+    (rc = 0%nat ->
+       (forall c, (c < n)%nat -> 0 < mg n Lh c c) /\
+       (forall r c, (c <= r)%nat -> (r < n)%nat ->
+          Rabs (mg n A r c - rsum (fun i => mg n Lh r i * mg n Lh c i) (S c))
+          <= gamma eps (n + 1) * rsum (fun i => Rabs (mg n Lh r i) * Rabs (mg n Lh c i)) (S c)
+             + (3 * INR (n + 1) + (2 * Rabs (mg n Lh c c) + eta)) * (1 + gamma eps (n + 1)) * eta)).
+Proof. exact C08.RoundFactor.llt_backward_error_uniform. Qed.
+Print Assumptions C08_llt_backward_error_uniform.
+
+(* LDL^T, cell by cell; in the in-place result Mh the pivots d_c are the diagonal cells, l_rc the cells below *)
+Theorem C08_ldl_backward_error : forall rnd eps eta tiny, std_model rnd eps eta -> 0 < tiny ->
+  forall n (A : list R),
+  length A = (n * n)%nat -> INR n * eps < 1 ->
+  exists rc Mh, ldl (Rnd8_ops rnd tiny) n A = Some (rc, Mh) /\ length Mh = (n * n)%nat /\ (rc = 0%nat \/ rc = 1%nat) /\
+    (rc = 0%nat ->
+       (forall c, (c < n)%nat -> tiny <= Rabs (mg n Mh c c)) /\
+       (forall r c, (c < r)%nat -> (r < n)%nat ->
+          Rabs (mg n A r c - (rsum (fun i => mg n Mh r i * mg n Mh c i * mg n Mh i i) c + mg n Mh r c * mg n Mh c c))
+          <= gamma eps (c + 2) * (rsum (fun i => Rabs (mg n Mh r i * mg n Mh c i * mg n Mh i i)) c
+                                  + Rabs (mg n Mh r c * mg n Mh c c))
+             + (3 * INR (c + 2) + rsum (fun i => Rabs (mg n Mh i i)) (S c)) * (1 + gamma eps (c + 2)) * eta) /\
+       (forall c, (c < n)%nat ->
+          Rabs (mg n A c c - (rsum (fun i => mg n Mh c i * mg n Mh c i * mg n Mh i i) c + mg n Mh c c))
+          <= gamma eps (S c) * (rsum (fun i => Rabs (mg n Mh c i * mg n Mh c i * mg n Mh i i)) c + Rabs (mg n Mh c c))
+             + (3 * INR (S c) + rsum (fun i => Rabs (mg n Mh i i)) c) * (1 + gamma eps (S c)) * eta)).
+Proof. exact C08.RoundFactor.ldl_backward_error. Qed.
+Print Assumptions C08_ldl_backward_error.
+
+(* the classical shape: |A - L^ D^ L^^T|_rc <= gamma_n (|L^||D^||L^|^T)_rc + O(n + sum |d_i|) eta for c <= r;
+   ldlt_cell m r c = sum_{i<c} m r i * m c i * m i i + (m c c if r = c, else m r c * m c c), ldlt_abs_cell its |.| form *)
+Theorem C08_ldl_backward_error_uniform : forall rnd eps eta tiny, std_model rnd eps eta -> 0 < tiny ->
+  forall n (A : list R),
+  length A = (n * n)%nat -> INR n * eps < 1 ->
+  exists rc Mh, ldl (Rnd8_ops rnd tiny) n A = Some (rc, Mh) /\ length Mh = (n * n)%nat /\ (rc = 0%nat \/ rc = 1%nat) /\
+    (rc = 0%nat ->
+       (forall c, (c < n)%nat -> tiny <= Rabs (mg n Mh c c)) /\
+       (forall r c, (c <= r)%nat -> (r < n)%nat ->
+          Rabs (mg n A r c - ldlt_cell (mg n Mh) r c)
+          <= gamma eps n * ldlt_abs_cell (mg n Mh) r c
+             + (3 * INR n + rsum (fun i => Rabs (mg n Mh i i)) (S c)) * (1 + gamma eps n) * eta)).
+Proof. exact C08.RoundFactor.ldl_backward_error_uniform. Qed.
+Print Assumptions C08_ldl_backward_error_uniform.
+
+(* PLU with partial pivoting, cell by cell (Higham Thm 9.3); row r of P A is row p[r] of A, p the permutation array
+   the ROUNDED run leaves (its pivot search sees the rounded entries); every multiplier is rnd x for some |x| <= 1 *)
+Theorem C08_plu_backward_error : forall rnd eps eta tiny, std_model rnd eps eta -> 0 < tiny ->
+  forall n (A : list R) (p0 : list nat),
+  length A = (n * n)%nat -> length p0 = n -> INR n * eps < 1 ->
+  exists rc st, plu (Rnd8_ops rnd tiny) n A p0 = Some (rc, st) /\ length (pA st) = (n * n)%nat /\ length (pp st) = n /\
+    (rc = 0%nat \/ rc = 1%nat) /\
+    (rc = 0%nat ->
+       Permutation (pp st) (seq 0 n) /\ psign st = perm_sign (pp st) /\
+       (forall c, (c < n)%nat -> tiny <= Rabs (mg n (pA st) c c)) /\
+       (forall r c, (c < r)%nat -> (r < n)%nat -> exists x, Rabs x <= 1 /\ mg n (pA st) r c = rnd x) /\
+       (forall r c, (r <= c)%nat -> (c < n)%nat ->
+          Rabs (mg n A (nth r (pp st) 0%nat) c - (rsum (fun j => mg n (pA st) r j * mg n (pA st) j c) r + mg n (pA st) r c))
+          <= gamma eps r * (rsum (fun j => Rabs (mg n (pA st) r j) * Rabs (mg n (pA st) j c)) r + Rabs (mg n (pA st) r c))
+             + 3 * INR r * (1 + gamma eps r) * eta) /\
+       (forall r c, (c < r)%nat -> (r < n)%nat ->
+          Rabs (mg n A (nth r (pp st) 0%nat) c - rsum (fun j => mg n (pA st) r j * mg n (pA st) j c) (S c))
+          <= gamma eps (S c) * rsum (fun j => Rabs (mg n (pA st) r j) * Rabs (mg n (pA st) j c)) (S c)
+             + (3 * INR (S c) + Rabs (mg n (pA st) c c)) * (1 + gamma eps (S c)) * eta)).
+Proof. exact C08.RoundFactor.plu_backward_error. Qed.
+Print Assumptions C08_plu_backward_error.
+
+(* the classical shape: |P A - L^ U^|_rc <= gamma_n (|L^||U^|)_rc + O(n) eta for EVERY cell;
+   lu_cell m r c = sum_{j < min(r,c+1)} m r j * m j c + (m r c if r <= c), lu_abs_cell its |.| form;
+   without any monotonicity of rnd the multipliers are bounded by 1 + eps + eta *)
+Theorem C08_plu_backward_error_uniform : forall rnd eps eta tiny, std_model rnd eps eta -> 0 < tiny ->
+  forall n (A : list R) (p0 : list nat),
+  length A = (n * n)%nat -> length p0 = n -> INR n * eps < 1 ->
+  exists rc st, plu (Rnd8_ops rnd tiny) n A p0 = Some (rc, st) /\ length (pA st) = (n * n)%nat /\ length (pp st) = n /\
+    (rc = 0%nat \/ rc = 1%nat) /\
+    (rc = 0%nat ->
+       Permutation (pp st) (seq 0 n) /\ psign st = perm_sign (pp st) /\
+       (forall c, (c < n)%nat -> tiny <= Rabs (mg n (pA st) c c)) /\
+       (forall r c, (c < r)%nat -> (r < n)%nat -> Rabs (mg n (pA st) r c) <= 1 + eps + eta) /\
+       (forall r c, (r < n)%nat -> (c < n)%nat ->
+          Rabs (mg n A (nth r (pp st) 0%nat) c - lu_cell (mg n (pA st)) r c)
+          <= gamma eps n * lu_abs_cell (mg n (pA st)) r c
+             + (3 * INR n + Rabs (mg n (pA st) c c)) * (1 + gamma eps n) * eta)).
+Proof. exact C08.RoundFactor.plu_backward_error_uniform. Qed.
+Print Assumptions C08_plu_backward_error_uniform.
+
+(* the multiplier bound of partial pivoting in the rounded run, for EVERY monotone rounding that is odd and fixes 1
+   (no error model needed): |l_rc| <= 1 *)
+Theorem C08_plu_multipliers_monotone_rounding : forall rnd tiny n (A : list R) (p0 : list nat),
+  mono_rnd rnd -> 0 < tiny -> length A = (n * n)%nat -> length p0 = n ->
+  exists rc st, plu (Rnd8_ops rnd tiny) n A p0 = Some (rc, st) /\ (rc = 0%nat \/ rc = 1%nat) /\
+    (rc = 0%nat -> forall r c, (c < r)%nat -> (r < n)%nat -> Rabs (mg n (pA st) r c) <= 1).
+Proof. exact C08.RoundFactor.plu_multipliers_mono. Qed.
+Print Assumptions C08_plu_multipliers_monotone_rounding.
+
+(* a_real_llt followed by a_real_llt_solve on the factor it produced, stage by stage: factor against A, forward
+   substitution and backward substitution against the COMPUTED factor *)
+Theorem C08_llt_factor_solve_stages : forall rnd eps eta tiny, std_model rnd eps eta -> 0 < tiny ->
+  forall n (A b : list R),
+  length A = (n * n)%nat -> length b = n -> INR (n + 1) * eps < 1 -> eta * eta < (1 - eps) * (1 - eps) * tiny ->
+  exists rc Lh, llt (Rnd8_ops rnd tiny) n A = Some (rc, Lh) /\ length Lh = (n * n)%nat /\ (rc = 0%nat \/ rc = 1%nat) /\
+    (rc = 0%nat ->
+       (forall r c, (c <= r)%nat -> (r < n)%nat ->
+          Rabs (mg n A r c - rsum (fun i => mg n Lh r i * mg n Lh c i) (S c))
+          <= gamma eps (n + 1) * rsum (fun i => Rabs (mg n Lh r i) * Rabs (mg n Lh c i)) (S c)
+             + (3 * INR (n + 1) + (2 * Rabs (mg n Lh c c) + eta)) * (1 + gamma eps (n + 1)) * eta) /\
+       exists yh xh, llt_lower (Rnd8_ops rnd tiny) n Lh b = Some yh /\ llt_solve (Rnd8_ops rnd tiny) n Lh b = Some xh /\
+         length xh = n /\
+         (forall r, (r < n)%nat ->
+            Rabs (nth r b 0 - rsum (fun c => mg n Lh r c * nth c yh 0) (S r))
+            <= gamma eps (S r) * rsum (fun c => Rabs (mg n Lh r c) * Rabs (nth c yh 0)) (S r)
+               + (3 * INR (S r) + Rabs (mg n Lh r r)) * (1 + gamma eps (S r)) * eta) /\
+         (forall c, (c < n)%nat ->
+            Rabs (nth c yh 0 - isum (fun r => mg n Lh r c * nth r xh 0) c n)
+            <= gamma eps (n - c) * isum (fun r => Rabs (mg n Lh r c) * Rabs (nth r xh 0)) c n
+               + (3 * INR (n - c) + Rabs (mg n Lh c c)) * (1 + gamma eps (n - c)) * eta)).
+Proof. exact C08.RoundFactor.llt_factor_solve_stages. Qed.
+Print Assumptions C08_llt_factor_solve_stages.
+
+(* IEEE binary64 round-to-nearest-even (u = eps64 = 2^-53, eta64 = 2^-1075, by Flocq), every order below 2^53;
+   the condition on tiny holds for A_REAL_MIN = DBL_MIN = 2^-1022 (RoundFactor64.room64_dbl_min) *)
+Theorem C08_llt_backward_error_binary64 : forall tiny n (A : list R),
+  0 < tiny -> eta64 * eta64 < (1 - eps64) * (1 - eps64) * tiny ->
+  length A = (n * n)%nat -> (Z.of_nat (n + 1) < 2 ^ 53)%Z ->
+  exists rc Lh, llt (Rnd8_ops rnd64 tiny) n A = Some (rc, Lh) /\ length Lh = (n * n)%nat /\ (rc = 0%nat \/ rc = 1%nat) /\
+    (rc = 0%nat ->
+       (forall c, (c < n)%nat -> 0 < mg n Lh c c) /\
+       (forall r c, (c <= r)%nat -> (r < n)%nat ->
+          Rabs (mg n A r c - rsum (fun i => mg n Lh r i * mg n Lh c i) (S c))
+          <= gamma eps64 (n + 1) * rsum (fun i => Rabs (mg n Lh r i) * Rabs (mg n Lh c i)) (S c)
+             + (3 * INR (n + 1) + (2 * Rabs (mg n Lh c c) + eta64)) * (1 + gamma eps64 (n + 1)) * eta64)).
+Proof. exact C08.RoundFactor64.llt_backward_error_binary64. Qed.
+Print Assumptions C08_llt_backward_error_binary64.
+
+Theorem C08_ldl_backward_error_binary64 : forall tiny n (A : list R),
+  0 < tiny -> length A = (n * n)%nat -> (Z.of_nat n < 2 ^ 53)%Z ->
+  exists rc Mh, ldl (Rnd8_ops rnd64 tiny) n A = Some (rc, Mh) /\ length Mh = (n * n)%nat /\ (rc = 0%nat \/ rc = 1%nat) /\
+    (rc = 0%nat ->
+       (forall c, (c < n)%nat -> tiny <= Rabs (mg n Mh c c)) /\
+       (forall r c, (c <= r)%nat -> (r < n)%nat ->
+          Rabs (mg n A r c - ldlt_cell (mg n Mh) r c)
+          <= gamma eps64 n * ldlt_abs_cell (mg n Mh) r c
+             + (3 * INR n + rsum (fun i => Rabs (mg n Mh i i)) (S c)) * (1 + gamma eps64 n) * eta64)).
+Proof. exact C08.RoundFactor64.ldl_backward_error_binary64. Qed.
+Print Assumptions C08_ldl_backward_error_binary64.
+
+(* in binary64 the multipliers are bounded by 1 exactly (round to nearest even is monotone and fixes 1) *)
+Theorem C08_plu_backward_error_binary64 : forall tiny n (A : list R) (p0 : list nat),
+  0 < tiny -> length A = (n * n)%nat -> length p0 = n -> (Z.of_nat n < 2 ^ 53)%Z ->
+  exists rc st, plu (Rnd8_ops rnd64 tiny) n A p0 = Some (rc, st) /\ length (pA st) = (n * n)%nat /\ length (pp st) = n /\
+    (rc = 0%nat \/ rc = 1%nat) /\
+    (rc = 0%nat ->
+       Permutation (pp st) (seq 0 n) /\ psign st = perm_sign (pp st) /\
+       (forall c, (c < n)%nat -> tiny <= Rabs (mg n (pA st) c c)) /\
+       (forall r c, (c < r)%nat -> (r < n)%nat -> Rabs (mg n (pA st) r c) <= 1) /\
+       (forall r c, (r < n)%nat -> (c < n)%nat ->
+          Rabs (mg n A (nth r (pp st) 0%nat) c - lu_cell (mg n (pA st)) r c)
+          <= gamma eps64 n * lu_abs_cell (mg n (pA st)) r c
+             + (3 * INR n + Rabs (mg n (pA st) c c)) * (1 + gamma eps64 n) * eta64)).
+Proof. exact C08.RoundFactor64.plu_backward_error_binary64. Qed.
+Print Assumptions C08_plu_backward_error_binary64.
+
+(* non-vacuity of the factorisation theorems: with the inexact rounding v -> v (1 + 1/8) (std_model_scale) and tiny = 1
+   the rounded runs on [4 2; 2 25/8] (Cholesky), [4 2; 2 3] (LDL^T) and [1 2; 4 3] (PLU, rows exchanged) succeed with
+   factors that are not the exact ones and residuals that are not zero and below the bounds
+   (RoundFactor.llt_2x2_scale / ldl_2x2_scale / plu_2x2_scale); binary64 with tiny = DBL_MIN and n = 1000:
+   RoundFactor64.room64_dbl_min, llt_binary64_dbl_min_1000, gamma64_1001. *)
+
+(* a_real_llt + a_real_llt_solve in ONE statement (Higham Thm 10.4): the computed x^ solves a nearby system exactly,
+   (A + dA) x^ = b + db, with A read as the symmetric matrix of its lower triangle (symlow n A r k = A[max r k][min r k]),
+   |dA|_rk <= gamma_{3n+1} (|L^||L^|^T)_rk + (3(n+1) + 2|l_mm| + eta)(1 + gamma_{n+1}) eta, m = min r k, and an explicit
+   |db| = O(n) eta that vanishes with eta *)
+Theorem C08_llt_solve_end_to_end : forall rnd eps eta tiny, std_model rnd eps eta -> 0 < tiny ->
+  forall n (A b : list R),
+  length A = (n * n)%nat -> length b = n -> INR (3 * n + 1) * eps < 1 -> eta * eta < (1 - eps) * (1 - eps) * tiny ->
+  exists rc Lh, llt (Rnd8_ops rnd tiny) n A = Some (rc, Lh) /\ length Lh = (n * n)%nat /\ (rc = 0%nat \/ rc = 1%nat) /\
+    (rc = 0%nat ->
+       exists xh (dA : nat -> nat -> R) (db : nat -> R),
+         llt_solve (Rnd8_ops rnd tiny) n Lh b = Some xh /\ length xh = n /\
+         (forall r, (r < n)%nat -> rsum (fun k => (symlow n A r k + dA r k) * nth k xh 0) n = nth r b 0 + db r) /\
+         (forall r k, (r < n)%nat -> (k < n)%nat ->
+            Rabs (dA r k)
+            <= gamma eps (3 * n + 1) * rsum (fun i => Rabs (mg n Lh r i) * Rabs (mg n Lh k i)) (S (Nat.min r k))
+               + (3 * INR (n + 1) + (2 * Rabs (mg n Lh (Nat.min r k) (Nat.min r k)) + eta)) * (1 + gamma eps (n + 1)) * eta) /\
+         (forall r, (r < n)%nat ->
+            Rabs (db r)
+            <= (3 * INR (S r) + Rabs (mg n Lh r r)) * (1 + gamma eps (S r)) * eta
+               + (1 + gamma eps n)
+                 * rsum (fun c => Rabs (mg n Lh r c)
+                                  * ((3 * INR (n - c) + Rabs (mg n Lh c c)) * (1 + gamma eps (n - c)) * eta)) (S r))).
+Proof. exact C08.RoundFactor.llt_solve_end_to_end. Qed.
+Print Assumptions C08_llt_solve_end_to_end.
+
+Theorem C08_llt_solve_end_to_end_binary64 : forall tiny n (A b : list R),
+  0 < tiny -> eta64 * eta64 < (1 - eps64) * (1 - eps64) * tiny ->
+  length A = (n * n)%nat -> length b = n -> (Z.of_nat (3 * n + 1) < 2 ^ 53)%Z ->
+  exists rc Lh, llt (Rnd8_ops rnd64 tiny) n A = Some (rc, Lh) /\ length Lh = (n * n)%nat /\ (rc = 0%nat \/ rc = 1%nat) /\
+    (rc = 0%nat ->
+       exists xh (dA : nat -> nat -> R) (db : nat -> R),
+         llt_solve (Rnd8_ops rnd64 tiny) n Lh b = Some xh /\ length xh = n /\
+         (forall r, (r < n)%nat -> rsum (fun k => (symlow n A r k + dA r k) * nth k xh 0) n = nth r b 0 + db r) /\
+         (forall r k, (r < n)%nat -> (k < n)%nat ->
+            Rabs (dA r k)
+            <= gamma eps64 (3 * n + 1) * rsum (fun i => Rabs (mg n Lh r i) * Rabs (mg n Lh k i)) (S (Nat.min r k))
+               + (3 * INR (n + 1) + (2 * Rabs (mg n Lh (Nat.min r k) (Nat.min r k)) + eta64)) * (1 + gamma eps64 (n + 1)) * eta64) /\
+         (forall r, (r < n)%nat ->
+            Rabs (db r)
+            <= (3 * INR (S r) + Rabs (mg n Lh r r)) * (1 + gamma eps64 (S r)) * eta64
+               + (1 + gamma eps64 n)
+                 * rsum (fun c => Rabs (mg n Lh r c)
+                                  * ((3 * INR (n - c) + Rabs (mg n Lh c c)) * (1 + gamma eps64 (n - c)) * eta64)) (S r))).
+Proof. exact C08.RoundFactor64.llt_solve_end_to_end_binary64. Qed.
+Print Assumptions C08_llt_solve_end_to_end_binary64.
+(* non-vacuity: RoundFactor.llt_end_to_end_2x2_scale (eps = 1/8, n = 2: (3n+1) eps = 7/8 < 1, the run succeeds) *)
